@@ -136,7 +136,9 @@ class ProgGen:
             # m[k] for a concrete k, as the precomputed constant keccak(k . base) (+ struct member offset)
             from .keccak import keccak256
 
-            key = ch.pick(3, lbl + ".mk")
+            # generation bound: only constants halmos can invert at all, i.e. the ones in its precomputed
+            # table (keys 0 and 1, slots < 256); any other literal hash is an opaque number to every tool
+            key = ch.pick(2, lbl + ".mk")
             h = int.from_bytes(keccak256(key.to_bytes(32, "big") + base.to_bytes(32, "big")), "big")
             a.push((h + ch.choose([0, 0, 1, 2], lbl + ".mo")) & M256)
         elif k == "reordered":
